@@ -1,6 +1,6 @@
 use std::convert::TryFrom;
 
-use rusty_linter::core::qualifier_of_variant;
+use rusty_linter::core::{CastVariant, qualifier_of_variant};
 use rusty_parser::{FileHandle, TypeQualifier};
 use rusty_variant::Variant;
 
@@ -46,10 +46,8 @@ fn do_input_one_var<S: InterpreterTrait>(
     let raw_input: String = raw_input(interpreter, file_handle)?;
     let q: TypeQualifier = qualifier(interpreter, index)?;
     let new_value: Variant = match q {
-        TypeQualifier::BangSingle => Variant::from(parse_single_input(raw_input)?),
         TypeQualifier::DollarString => Variant::from(raw_input),
-        TypeQualifier::PercentInteger => Variant::from(parse_int_input(raw_input)?),
-        _ => todo!("INPUT type {} not supported yet", q),
+        _ => parse_number_input(raw_input, q)?,
     };
     interpreter.context_mut()[index] = new_value;
     Ok(())
@@ -76,21 +74,27 @@ fn qualifier<S: InterpreterTrait>(
     qualifier_of_variant(&interpreter.context()[index]).map_err(RuntimeError::from)
 }
 
-fn parse_single_input(s: String) -> Result<f32, RuntimeError> {
+/// Parses the input as a number and converts it to the type of the variable,
+/// so that a value that does not fit raises an overflow error.
+fn parse_number_input(s: String, q: TypeQualifier) -> Result<Variant, RuntimeError> {
     if s.is_empty() {
-        Ok(0.0)
-    } else {
-        s.parse::<f32>()
-            .map_err(|e| RuntimeError::Other(format!("Could not parse {} as float: {}", s, e)))
+        return Variant::VInteger(0).cast(q).map_err(RuntimeError::from);
     }
-}
-
-fn parse_int_input(s: String) -> Result<i32, RuntimeError> {
-    if s.is_empty() {
-        Ok(0)
+    let parsed: Variant = if q == TypeQualifier::BangSingle {
+        let f = s
+            .parse::<f32>()
+            .map_err(|e| RuntimeError::Other(format!("Could not parse {} as float: {}", s, e)))?;
+        Variant::VSingle(f)
     } else {
-        s.parse::<i32>()
-            .map_err(|e| RuntimeError::Other(format!("Could not parse {} as int: {}", s, e)))
+        let d = s
+            .parse::<f64>()
+            .map_err(|e| RuntimeError::Other(format!("Could not parse {} as number: {}", s, e)))?;
+        Variant::VDouble(d)
+    };
+    match parsed {
+        Variant::VSingle(f) if !f.is_finite() => Err(RuntimeError::Overflow),
+        Variant::VDouble(d) if !d.is_finite() => Err(RuntimeError::Overflow),
+        _ => parsed.cast(q).map_err(RuntimeError::from),
     }
 }
 
